@@ -25,11 +25,12 @@ def menu(tier):
     for fn, lv in (('B', 'b0'), ('A', 'a0')):
         m += [{'c': 'AtMostKInARow', 'k': 1, 'factor': fn, 'level': lv}, {'c': 'ExactlyK', 'k': 1, 'factor': fn, 'level': lv},
               {'c': 'ExactlyK', 'k': 2, 'factor': fn, 'level': lv}, {'c': 'AtLeastKInARow', 'k': 2, 'factor': fn, 'level': lv},
-              {'c': 'ExactlyKInARow', 'k': 1, 'factor': fn, 'level': lv}, {'c': 'Pin', 'index': 0, 'factor': fn, 'level': lv},
+              {'c': 'ExactlyKInARow', 'k': 1, 'factor': fn, 'level': lv}, {'c': 'ExactlyKInARow', 'k': 2, 'factor': fn, 'level': lv},
+              {'c': 'Pin', 'index': 0, 'factor': fn, 'level': lv},
               {'c': 'Pin', 'index': -1, 'factor': fn, 'level': lv}]
         if tier == 'thorough':
             m += [{'c': 'AtMostKInARow', 'k': 2, 'factor': fn, 'level': lv}, {'c': 'AtMostKInARow', 'k': 1, 'factor': fn, 'level': None},
-                  {'c': 'ExactlyKInARow', 'k': 2, 'factor': fn, 'level': lv}, {'c': 'Pin', 'index': 1, 'factor': fn, 'level': lv}]
+                  {'c': 'ExactlyKInARow', 'k': 3, 'factor': fn, 'level': lv}, {'c': 'Pin', 'index': 1, 'factor': fn, 'level': lv}]
     return m
 
 
